@@ -14,7 +14,8 @@ RULE = ("classes over the schema-mappable fragment (Integer/Number/Float with bo
         "classes; String with length/pattern; Boolean; Enum of literals / enum classes; Array homogeneous / positional "
         "with and without additionalItems; Tuple homogeneous / positional; Set; Map with plain, constrained and non-String "
         "keys; nested classes by $ref incl. one class referenced twice and two classes under one name; StructureReference; "
-        "AllOf/AnyOf/OneOf/NotField; Optional and its neighbouring non-Optional shapes; defaults; field-wrapper classes; 8% with "
+        "AllOf/AnyOf/OneOf/NotField; Optional and its neighbouring non-Optional shapes, also in ELEMENT position (array / tuple / "
+        "set item, map value, positional item); defaults (in normal form); field-wrapper classes; 8% with "
         "Anything/NoneField; 1200 classes quick / 16000 thorough; 10% of them additionally with a key-renaming "
         "_serialization_mapper: ONE dict mapper on the top-level class that renames its own keys to strings = modelled "
         "(Sch.classSchemaM / renameDoc: model schema and model serialization compared with the real ones); case converters, "
@@ -25,7 +26,8 @@ RULE = ("classes over the schema-mappable fragment (Integer/Number/Float with bo
         "wfDocument == Draft4Validator.check_schema + $ref resolution, Lean jsValidFuel == Draft4Validator.is_valid on the "
         "same (real schema, document) pairs, model serialization == real. Oracle on the real code: check_schema of the "
         "dialect-fixed schema, every $ref resolves, every serialized valid instance validates, and on the statement's exact "
-        "sub-fragment every admitted boundary document is accepted by the real Deserializer. non-trivial = constraint, "
+        "sub-fragment every admitted boundary document (and the base document they vary) is accepted by the real Deserializer; "
+        "a failure inside the hypotheses of a proved theorem is keyed *:inside-the-proved-region. non-trivial = constraint, "
         "nesting or more than one field; distinct by case hash")
 ASSUMPTIONS = [
     "key-renaming serialization mappers are in the Lean model only as one string-valued key map on the top-level class; everything else about mappers is exercised by the oracle-only stream",
